@@ -677,7 +677,7 @@ static RunOutcome check_corrupt(const std::string &prop, const Plan &P, int tier
                 simfs::put(PATH_X, img);
                 std::string atext = alter_text(a);
                 if (g_progress) g_progress(-3, -1, 0, -1, atext.c_str());
-                Dump d; RunStatus st = exec::read_dump(P, PATH_X, d, false);
+                Dump d; RunStatus st = exec::read_dump(P, PATH_X, d, false, true);
                 size_t vb = lv.size();
                 if (st != RUN_OK) { add_violation(lv, prop, std::string("corrupt_") + sim::status_name(st), fmt("alteration %s: reading did not terminate (%s)", atext.c_str(), sim::status_name(st))); lv.back().f_alter = atext; return; }
                 lo.unit_hashes.push_back(fnv_u64(fnv1a(atext.data(), atext.size()), fhash)); ++lo.nontrivial_units;
@@ -689,7 +689,12 @@ static RunOutcome check_corrupt(const std::string &prop, const Plan &P, int tier
                         for (size_t q = 0; q < d.calls.size(); ++q) {
                             const CallRec &c = d.calls[q], &c0 = D0.calls[q];
                             if (c.skipped) continue;
-                            if (c.rc != 0) { ++n_err; if (only_pad && c0.rc == 0) { add_violation(lv, prop, "pad_flip_changes_output", fmt("alteration %s (pad bytes only): call %zu (%s) failed with %d, pristine rc 0", atext.c_str(), q, P.reads[q].to_text().c_str(), c.rc), (int) q); break; } continue; }
+                            if (c.rc != 0 && !d.retry[q].skipped && d.retry[q].rc == 0 && !(c0.rc == 0 && d.retry[q].out == c0.out)) {
+                                // the call reported the damage, the same call repeated straight away returns content: it must be the original content
+                                add_violation(lv, prop, "altered_content_returned_on_retry", fmt("alteration %s: call %zu (%s) failed with %d, the same call repeated returned rc 0 with output that differs from the pristine file (%zu vs %zu bytes; pristine rc %d)", atext.c_str(), q, P.reads[q].to_text().c_str(), c.rc, d.retry[q].out.size(), c0.out.size(), c0.rc), (int) q);
+                                break;
+                            }
+                            if (c.rc != 0) { ++n_err; if (!d.retry[q].skipped) lo.ctr["altered_calls_retried"]++; if (only_pad && c0.rc == 0) { add_violation(lv, prop, "pad_flip_changes_output", fmt("alteration %s (pad bytes only): call %zu (%s) failed with %d, pristine rc 0", atext.c_str(), q, P.reads[q].to_text().c_str(), c.rc), (int) q); break; } continue; }
                             if (c0.rc == 0 && c.out == c0.out) { ++n_same; continue; }
                             // callbacks deliver items before an error is detected: a shorter in-order delivery with rc != 0 was handled above; rc == 0 must be complete and equal
                             add_violation(lv, prop, only_pad ? "pad_flip_changes_output" : "altered_content_returned",
